@@ -119,6 +119,14 @@ func (g *Gen) Next(step int) Op {
 		if g.R.Intn(4) == 0 {
 			op.AMeta = map[string]map[string]string{g.pick(GenAccounts[1:]): g.meta()}
 		}
+		if op.Script && g.R.Intn(2) == 0 {
+			// the script sets metadata itself: sometimes a key the request sets too (refused), sometimes account
+			// metadata on an account the request also annotates (the request wins)
+			op.SMeta = g.meta()
+			if g.R.Intn(2) == 0 {
+				op.SAMeta = map[string]map[string]string{g.pick(GenAccounts[1:]): g.meta()}
+			}
+		}
 		op.Dry = g.R.Intn(10) == 0
 		g.nTx++
 	case r < 65:
